@@ -91,6 +91,7 @@ def check_panics(res, facts):
 
 def adsr_entries(col, facts):
     dds = D.Dds(facts)
+    dds.need_levels = False
     total, index = D.pa_instantiation(facts, D.ADSR)
     mask = (1 << total) - 1
 
